@@ -4,9 +4,13 @@ package c01
 
 import (
 	"bytes"
+	"crypto/aes"
+	"crypto/cipher"
+	"encoding/base64"
 	"encoding/binary"
 	"fmt"
 	"runtime/debug"
+	"strings"
 	"testing"
 
 	"google.golang.org/protobuf/proto"
@@ -223,7 +227,9 @@ func afterFailures(t *rapid.T, desc string, p tink.AEAD, ct, ad, pt []byte, regi
 func TestAEAD(t *testing.T) {
 	rapid.Check(t, func(rt *rapid.T) {
 		detrand.Seed(rapid.Uint64().Draw(rt, "entropy"))
-		c := aeadcase.Draw(rt)
+		// all five routes: the differential and the format oracle also for the per-key full primitive
+		// without the keyset wrapper and for the key manager's raw primitive
+		c := aeadcase.DrawRoutes(rt, aeadcase.RoutesAll)
 		pt := gen.Bytes(rt, "pt", maxPT())
 		ad := gen.BytesOrNil(rt, "ad", 512)
 		if n, big := aeadcase.BigLen(rt, "pt", 200); big {
@@ -248,11 +254,16 @@ func TestAEAD(t *testing.T) {
 			evid.Add("shared_record_cases", 1)
 		}
 		checkAEAD(rt, c, pt, ad)
-		if ct, err := c.P.Encrypt(pt, ad); err == nil {
-			pl := len(c.Prefix())
-			afterFailures(rt, c.String(), c.P, ct, ad, pt, [][2]int{{0, pl}, {pl, pl + c.NonceLen}, {pl + c.NonceLen, len(ct) - c.TagSize}, {len(ct) - c.TagSize, len(ct)}})
+		ct, err := c.P.Encrypt(pt, ad)
+		if err != nil {
+			rt.Fatalf("%v pt=%s ad=%s: Encrypt fails on an object that has just encrypted and decrypted the same input: %v", c, gen.Hex(pt), gen.Hex(ad), err)
 		}
+		pl := len(c.Prefix())
+		afterFailures(rt, c.String(), c.P, ct, ad, pt, [][2]int{{0, pl}, {pl, pl + c.NonceLen}, {pl + c.NonceLen, len(ct) - c.TagSize}, {len(ct) - c.TagSize, len(ct)}})
 		class := fmt.Sprintf("%s/pt=%s/%s", c.Class(), gen.LenClass(len(pt)), adClass(ad))
+		if sc := c.SubClass(); sc != "" {
+			evid.Add("ctrhmac_product/"+sc, 1) // hash x IV size x tag class of the AES-CTR-HMAC cases
+		}
 		evid.Case(class, len(pt) >= 1, evid.NewH().S(c.String()).B(pt).B(ad).Sum(), func() any {
 			return map[string]any{"case": c.String(), "pt": gen.Hex(pt), "ad": gen.Hex(ad)}
 		})
@@ -264,7 +275,7 @@ func TestAEAD(t *testing.T) {
 func TestAEADLengthGrid(t *testing.T) {
 	rapid.Check(t, func(rt *rapid.T) {
 		detrand.Seed(rapid.Uint64().Draw(rt, "entropy"))
-		c := aeadcase.Draw(rt)
+		c := aeadcase.DrawRoutes(rt, aeadcase.RoutesAll)
 		data := gen.Expand(rapid.Uint64().Draw(rt, "data"), 200)
 		adLens := []int{0, rapid.IntRange(1, 15).Draw(rt, "ad1"), rapid.IntRange(16, 100).Draw(rt, "ad2")}
 		for n := 0; n <= 72; n++ {
@@ -273,6 +284,9 @@ func TestAEADLengthGrid(t *testing.T) {
 			}
 		}
 		evid.Add("grid_points", 73*3)
+		if sc := c.SubClass(); sc != "" {
+			evid.Add("ctrhmac_product_grid/"+sc, 1)
+		}
 		evid.Case("grid/"+c.Class(), true, evid.NewH().S(c.String()).B(data).Sum(), func() any {
 			return map[string]any{"case": c.String(), "pt_lengths": "0..72", "ad_lengths": adLens}
 		})
@@ -306,7 +320,7 @@ var polyvals = []polyvalCtor{
 // 0..80 visited over a run, longer inputs, special keys, and chunked Update calls.
 func TestPolyval(t *testing.T) {
 	rapid.Check(t, func(rt *rapid.T) {
-		impl := rapid.SampledFrom(polyvals).Draw(rt, "impl")
+		impl := gen.Pick(rt, "impl", polyvals)
 		key := gen.BytesN(rt, "key", 16)
 		if rapid.IntRange(0, 7).Draw(rt, "spec") == 0 {
 			// sparse / boundary field elements: single bits at the ends of each 64-bit half
@@ -351,7 +365,7 @@ func TestGCMSIVCounter(t *testing.T) {
 	rapid.Check(t, func(rt *rapid.T) {
 		key := gen.BytesN(rt, "key", rapid.SampledFrom([]int{16, 32}).Draw(rt, "keylen"))
 		tag := gen.BytesN(rt, "tag", 16)
-		kind := rapid.SampledFrom([]string{"random", "nearwrap", "farwrap", "wrap-exact", "byte-carry"}).Draw(rt, "kind")
+		kind := gen.Pick(rt, "kind", []string{"random", "nearwrap", "farwrap", "wrap-exact", "byte-carry"})
 		switch kind {
 		case "nearwrap":
 			binary.LittleEndian.PutUint32(tag[:4], 0xFFFFFFFF-uint32(rapid.IntRange(0, 6).Draw(rt, "dist")))
@@ -487,8 +501,8 @@ func TestEnvelope(t *testing.T) {
 	specs := dekSpecs()
 	rapid.Check(t, func(rt *rapid.T) {
 		detrand.Seed(rapid.Uint64().Draw(rt, "entropy"))
-		d := rapid.SampledFrom(specs).Draw(rt, "dek")
-		kekKind := rapid.SampledFrom([]string{"aesgcm-subtle", "aesgcm-handle-tink", "fakekms", "padded"}).Draw(rt, "kek")
+		d := gen.Pick(rt, "dek", specs)
+		kekKind := gen.Pick(rt, "kek", []string{"aesgcm-subtle", "aesgcm-handle-tink", "fakekms", "padded"})
 		kekKey := gen.BytesN(rt, "kekkey", 32)
 		var kek tink.AEAD
 		var kekPrefix []byte
@@ -512,11 +526,11 @@ func TestEnvelope(t *testing.T) {
 		case "padded":
 			// a KMS whose wrapped keys have a chosen length, up to and beyond the format's documented
 			// maximum of 4096 bytes (added after seeded change C01d)
-			target := rapid.SampledFrom([]int{160, 255, 256, 1000, 4094, 4095, 4096, 4097, 5000}).Draw(rt, "encdek_len")
+			target := gen.Pick(rt, "encdek_len", []int{160, 255, 256, 1000, 4094, 4095, 4096, 4097, 5000})
 			kek = paddedKEK{inner: tk.Must(aeadsubtle.NewAESGCM(kekKey)), target: target}
 			paddedTarget = target
 		}
-		api := rapid.SampledFrom(tk.EnvelopeAPIsAll).Draw(rt, "api")
+		api := gen.Pick(rt, "api", tk.EnvelopeAPIsAll)
 		// Shape of the keyset on the keyset route: the RAW template as the library hands it out, one
 		// key behind a TINK prefix, or two keys for the same KEK URI with different DEK templates.
 		shape := "-"
@@ -526,7 +540,7 @@ func TestEnvelope(t *testing.T) {
 		var env tink.AEAD
 		var err error
 		if api == "keyset" {
-			shape = rapid.SampledFrom([]string{"raw-template", "tink-prefix", "two-keys"}).Draw(rt, "shape")
+			shape = gen.Pick(rt, "shape", []string{"raw-template", "tink-prefix", "two-keys"})
 		}
 		if shape == "-" || (shape == "raw-template" && kekKind != "fakekms") {
 			env, err = tk.Envelope(api, d.kt, kek)
@@ -554,7 +568,7 @@ func TestEnvelope(t *testing.T) {
 							rest = append(rest, x)
 						}
 					}
-					o := rapid.SampledFrom(rest).Draw(rt, "dek2")
+					o := gen.Pick(rt, "dek2", rest)
 					other = &o
 					k2 := tk.EnvelopeKey{DEK: o.kt, Prefix: tinkpb.OutputPrefixType_RAW, ID: id + 1 + uint32(rapid.IntRange(0, 3).Draw(rt, "id2off"))}
 					if rapid.Bool().Draw(rt, "second_tink") {
@@ -617,20 +631,32 @@ func TestEnvelope(t *testing.T) {
 		if kekKind == "padded" && n != paddedTarget {
 			rt.Fatalf("%s: encrypted-DEK length field %d, the KEK returned %d bytes", desc, n, paddedTarget)
 		}
-		if kekKind == "fakekms" || kekKind == "padded" {
-			dek, err = kek.Decrypt(encDEK, []byte{})
+		// The harness's own model of the KEK's wrapped-key format (AES-GCM key, output prefix, padding):
+		// every KEK kind is an AES-GCM key the harness knows - drawn, or, for fakekms, read from the
+		// cleartext keyset inside the key URI with the generated proto types.
+		var kr *kekRef
+		switch kekKind {
+		case "aesgcm-subtle":
+			kr = &kekRef{key: kekKey}
+		case "aesgcm-handle-tink":
+			kr = &kekRef{key: kekKey, prefix: kekPrefix}
+		case "padded":
+			kr = &kekRef{key: kekKey, padTo: paddedTarget}
+		case "fakekms":
+			if kr, err = fakeKMSRef(fakeURI); err != nil {
+				// a keyset the harness does not model: Tink's own KEK object opens the DEK, no harness-built frame
+				evid.Add("fakekms_keyset_not_modelled", 1)
+				kr = nil
+			}
+		}
+		if kr != nil {
+			dek, err = kr.open(encDEK)
+			desc += fmt.Sprintf(" kek(ref: key=%x prefix=%x)", kr.key, kr.prefix)
 		} else {
-			if !bytes.HasPrefix(encDEK, kekPrefix) {
-				rt.Fatalf("%s: encrypted DEK lacks KEK prefix", desc)
-			}
-			b := encDEK[len(kekPrefix):]
-			if len(b) < 28 {
-				rt.Fatalf("%s: encrypted DEK too short", desc)
-			}
-			dek, err = sym.GCMOpen(kekKey, b[:12], b[12:], nil)
+			dek, err = kek.Decrypt(encDEK, []byte{})
 		}
 		if err != nil {
-			rt.Fatalf("%s: encrypted DEK does not open under the KEK with empty associated data: %v", desc, err)
+			rt.Fatalf("%s: encrypted DEK %x does not open under the KEK with empty associated data: %v", desc, encDEK, err)
 		}
 		rc, err := parseDEK(d.typ, dek)
 		if err != nil {
@@ -647,7 +673,7 @@ func TestEnvelope(t *testing.T) {
 			rt.Fatalf("%s: independent implementation cannot open the payload with the recovered DEK: %v", desc, err)
 		}
 		// harness-built envelope -> Tink (for the encrypting key and, in a two-key keyset, for the other key)
-		if kekKind != "fakekms" && kekKind != "padded" {
+		if kr != nil {
 			build := func(label string, d dekSpec, prefix []byte) {
 				k2 := gen.BytesN(rt, label+"dekkey", d.key)
 				var m2 []byte
@@ -656,7 +682,7 @@ func TestEnvelope(t *testing.T) {
 				}
 				dek2 := marshalDEK(d, k2, m2)
 				iv := gen.BytesN(rt, label+"kekiv", 12)
-				enc2 := append(append(append([]byte{}, kekPrefix...), iv...), sym.GCMSeal(kekKey, iv, dek2, nil)...)
+				enc2 := kr.seal(iv, dek2)
 				rc2 := aeadcase.Raw(d.typ, k2, m2, d.hash, d.iv, d.tag)
 				body := rc2.RefSeal(gen.BytesN(rt, label+"deknonce", rc2.NonceLen), pt, ad)
 				built := binary.BigEndian.AppendUint32(append([]byte{}, prefix...), uint32(len(enc2)))
@@ -671,6 +697,7 @@ func TestEnvelope(t *testing.T) {
 				build("second_", *other, otherPrefix)
 				evid.Add("two_key_envelope_cases", 1)
 			}
+			evid.Add("harness_built_envelopes/"+kekKind, 1)
 		}
 		// the same envelope object after failed calls: output prefix, length field, encrypted DEK, payload
 		afterFailures(rt, desc, env, ct, ad, pt, [][2]int{{0, pl}, {pl, pl + 4}, {pl + 4, pl + 4 + n}, {pl + 4 + n, len(ct)}})
@@ -682,6 +709,83 @@ func TestEnvelope(t *testing.T) {
 			return map[string]any{"api": api, "shape": shape, "prefix": gen.Hex(prefix), "dek": d.name, "kek": kekKind, "pt": gen.Hex(pt), "ad": gen.Hex(ad), "enc_dek_len": n}
 		})
 	})
+}
+
+// kekRef is the harness's model of a key-encryption AEAD: an AES-GCM key (12-byte IV, 16-byte tag,
+// empty associated data), the output prefix of its keyset entry, and for the padded kind the
+// paddedKEK framing be16(len(inner)) || inner || zeros up to padTo.
+type kekRef struct {
+	key    []byte
+	prefix []byte
+	padTo  int
+}
+
+func (k *kekRef) open(enc []byte) ([]byte, error) {
+	if k.padTo > 0 {
+		if len(enc) != k.padTo {
+			return nil, fmt.Errorf("padded KEK: %d bytes, want %d", len(enc), k.padTo)
+		}
+		n := int(binary.BigEndian.Uint16(enc))
+		if 2+n > len(enc) || !bytes.Equal(enc[2+n:], make([]byte, len(enc)-2-n)) {
+			return nil, fmt.Errorf("padded KEK: bad inner length %d or padding", n)
+		}
+		enc = enc[2 : 2+n]
+	}
+	if !bytes.HasPrefix(enc, k.prefix) {
+		return nil, fmt.Errorf("encrypted DEK lacks the KEK's output prefix %x", k.prefix)
+	}
+	b := enc[len(k.prefix):]
+	if len(b) < 28 {
+		return nil, fmt.Errorf("encrypted DEK too short (%d bytes after the prefix)", len(b))
+	}
+	return sym.GCMOpen(k.key, b[:12], b[12:], nil)
+}
+
+func (k *kekRef) seal(iv, dek []byte) []byte {
+	inner := append(append(append([]byte{}, k.prefix...), iv...), sym.GCMSeal(k.key, iv, dek, nil)...)
+	if k.padTo == 0 {
+		return inner
+	}
+	if 2+len(inner) > k.padTo {
+		panic(fmt.Sprintf("harness: wrapped DEK of %d bytes does not fit the padded length %d", len(inner), k.padTo))
+	}
+	out := make([]byte, k.padTo)
+	binary.BigEndian.PutUint16(out, uint16(len(inner)))
+	copy(out[2:], inner)
+	return out
+}
+
+// fakeKMSRef reads the KEK out of a fakekms key URI (fake-kms:// || base64url(binary cleartext
+// keyset)) with the generated proto types: one enabled AES-GCM key, TINK or RAW prefix.
+func fakeKMSRef(uri string) (*kekRef, error) {
+	raw, err := base64.RawURLEncoding.DecodeString(strings.TrimPrefix(uri, "fake-kms://"))
+	if err != nil {
+		return nil, err
+	}
+	ks := &tinkpb.Keyset{}
+	if err := proto.Unmarshal(raw, ks); err != nil {
+		return nil, err
+	}
+	if len(ks.GetKey()) != 1 {
+		return nil, fmt.Errorf("%d keys", len(ks.GetKey()))
+	}
+	k := ks.GetKey()[0]
+	if k.GetKeyId() != ks.GetPrimaryKeyId() || k.GetStatus() != tinkpb.KeyStatusType_ENABLED || k.GetKeyData().GetTypeUrl() != "type.googleapis.com/google.crypto.tink.AesGcmKey" {
+		return nil, fmt.Errorf("not one enabled primary AES-GCM key: %v", k.GetKeyData().GetTypeUrl())
+	}
+	g := &gcmpb.AesGcmKey{}
+	if err := proto.Unmarshal(k.GetKeyData().GetValue(), g); err != nil {
+		return nil, err
+	}
+	r := &kekRef{key: g.GetKeyValue()}
+	switch k.GetOutputPrefixType() {
+	case tinkpb.OutputPrefixType_TINK:
+		r.prefix = tk.Prefix(tk.Tink, k.GetKeyId())
+	case tinkpb.OutputPrefixType_RAW:
+	default:
+		return nil, fmt.Errorf("prefix type %v", k.GetOutputPrefixType())
+	}
+	return r, nil
 }
 
 // paddedKEK is a key-encryption AEAD whose ciphertexts have a chosen length: 2-byte length of the
@@ -721,25 +825,67 @@ func (p paddedKEK) Decrypt(ct, ad []byte) ([]byte, error) {
 	return p.inner.Decrypt(ct[2:2+n], ad)
 }
 
+// refGCM is AES-GCM with any nonce size and a tag of tagSize bytes by crypto/cipher: for the 12-byte
+// nonce cipher.NewGCMWithTagSize, otherwise cipher.NewGCMWithNonceSize with the tag cut to its
+// leading tagSize bytes (SP 800-38D: T = MSB_t of the full tag). Returns ct || tag.
+func refGCM(key, nonce, pt, ad []byte, tagSize int) ([]byte, error) {
+	b, err := aes.NewCipher(key)
+	if err != nil {
+		return nil, err
+	}
+	if len(nonce) == 12 {
+		g, err := cipher.NewGCMWithTagSize(b, tagSize)
+		if err != nil {
+			return nil, err
+		}
+		return g.Seal(nil, nonce, pt, ad), nil
+	}
+	g, err := cipher.NewGCMWithNonceSize(b, len(nonce))
+	if err != nil {
+		return nil, err
+	}
+	full := g.Seal(nil, nonce, pt, ad)
+	return full[:len(full)-16+tagSize], nil
+}
+
 // TestAEADRefusedParameters: parameter combinations the parameter constructors accept but the
-// primitives do not support must fail cleanly (or, if they work, be correct).
+// primitives do not support today (AES-GCM with a 24-byte key, an IV other than 12 or a tag other
+// than 16 bytes; AES-CTR-HMAC with a 24-byte AES key). C01 does not demand the refusal: a clean
+// refusal is fine, and a primitive that comes out must be the standard algorithm for the parameters
+// of its key - compared in both directions with crypto/cipher's GCM for that nonce and tag size
+// resp. with the encrypt-then-MAC reference, never with the library itself.
 func TestAEADRefusedParameters(t *testing.T) {
 	rapid.Check(t, func(rt *rapid.T) {
 		detrand.Seed(rapid.Uint64().Draw(rt, "entropy"))
-		ks := rapid.SampledFrom([]int{16, 24, 32}).Draw(rt, "keysize")
-		iv := rapid.SampledFrom([]int{1, 8, 11, 12, 13, 16, 32}).Draw(rt, "iv")
-		tag := rapid.SampledFrom([]int{12, 13, 14, 15, 16}).Draw(rt, "tag")
-		p, err := aesgcm.NewParameters(aesgcm.ParametersOpts{KeySizeInBytes: ks, IVSizeInBytes: iv, TagSizeInBytes: tag, Variant: aesgcm.VariantNoPrefix})
+		if gen.OneIn(rt, "ctrhmac24", 4) {
+			ctrhmac24(rt)
+			return
+		}
+		ks := gen.Pick(rt, "keysize", []int{16, 24, 32})
+		iv := gen.Pick(rt, "iv", []int{1, 8, 11, 12, 13, 16, 32})
+		tag := gen.Pick(rt, "tag", []int{12, 13, 14, 15, 16})
+		if gen.OneIn(rt, "standard", 8) {
+			iv, tag = 12, 16 // the supported sizes: keeps the comparison below exercised on the unchanged tree
+		}
+		variant := gen.Pick(rt, "variant", []string{tk.NoPrefix, tk.Tink, tk.Crunchy})
+		v := map[string]aesgcm.Variant{tk.Tink: aesgcm.VariantTink, tk.Crunchy: aesgcm.VariantCrunchy, tk.NoPrefix: aesgcm.VariantNoPrefix}[variant]
+		p, err := aesgcm.NewParameters(aesgcm.ParametersOpts{KeySizeInBytes: ks, IVSizeInBytes: iv, TagSizeInBytes: tag, Variant: v})
 		if err != nil {
 			evid.Case("aesgcm/params-refused", false, 0, nil)
 			return
 		}
-		k, err := aesgcm.NewKey(tk.Secret(gen.BytesN(rt, "key", ks)), 0, p)
+		var id uint32
+		if variant != tk.NoPrefix {
+			id = gen.KeyID(rt, "id")
+		}
+		keyBytes := gen.BytesN(rt, "key", ks)
+		k, err := aesgcm.NewKey(tk.Secret(keyBytes), id, p)
 		if err != nil {
 			rt.Fatalf("aesgcm.NewKey refuses accepted parameters ks=%d iv=%d tag=%d: %v", ks, iv, tag, err)
 		}
 		a, err := aesgcm.NewAEAD(k)
 		standard := (ks == 16 || ks == 32) && iv == 12 && tag == 16
+		what := fmt.Sprintf("AES-GCM ks=%d iv=%d tag=%d %s id=%#x key=%x", ks, iv, tag, variant, id, keyBytes)
 		if err != nil {
 			if standard {
 				rt.Fatalf("aesgcm.NewAEAD refuses the standard parameters ks=%d: %v", ks, err)
@@ -748,16 +894,68 @@ func TestAEADRefusedParameters(t *testing.T) {
 			return
 		}
 		pt := gen.Bytes(rt, "pt", 100)
-		ct, err := a.Encrypt(pt, nil)
+		ad := gen.BytesOrNil(rt, "ad", 40)
+		prefix := tk.Prefix(variant, id)
+		ct, err := a.Encrypt(pt, ad)
 		if err != nil {
-			rt.Fatalf("Encrypt: %v", err)
+			rt.Fatalf("%s: Encrypt: %v", what, err)
 		}
-		got, err := a.Decrypt(ct, nil)
+		if !bytes.HasPrefix(ct, prefix) || len(ct) != len(prefix)+iv+len(pt)+tag {
+			rt.Fatalf("%s pt=%x: ciphertext %x is not prefix || %d-byte IV || ciphertext || %d-byte tag", what, pt, ct, iv, tag)
+		}
+		body := ct[len(prefix):]
+		want, err := refGCM(keyBytes, body[:iv], pt, ad, tag)
+		if err != nil {
+			rt.Fatalf("harness: crypto/cipher has no GCM for %s: %v", what, err)
+		}
+		if !bytes.Equal(body[iv:], want) {
+			rt.Fatalf("%s pt=%x ad=%x: ciphertext after the IV %x is %x, crypto/cipher's GCM with this nonce and tag size gives %x", what, pt, ad, body[:iv], body[iv:], want)
+		}
+		got, err := a.Decrypt(ct, ad)
 		if err != nil || !bytes.Equal(got, pt) {
-			rt.Fatalf("ks=%d iv=%d tag=%d: accepted but does not round trip", ks, iv, tag)
+			rt.Fatalf("%s: accepted but does not round trip: %x, %v", what, got, err)
 		}
-		evid.Case("aesgcm/accepted", true, evid.NewH().I(int64(ks)).I(int64(iv)).I(int64(tag)).B(pt).Sum(), func() any { return fmt.Sprintf("ks=%d iv=%d tag=%d", ks, iv, tag) })
+		nonce := gen.BytesN(rt, "refnonce", iv)
+		rbody, _ := refGCM(keyBytes, nonce, pt, ad, tag)
+		rct := append(append(append([]byte{}, prefix...), nonce...), rbody...)
+		got, err = a.Decrypt(rct, ad)
+		if err != nil || !bytes.Equal(got, pt) {
+			rt.Fatalf("%s pt=%x ad=%x: Tink cannot decrypt crypto/cipher's ciphertext %x: %x, %v", what, pt, ad, rct, got, err)
+		}
+		class := "aesgcm/accepted-standard"
+		if !standard {
+			class = "aesgcm/accepted-nonstandard"
+			evid.Add("nonstandard_parameters_built_and_compared", 1)
+		}
+		evid.Case(class, true, evid.NewH().I(int64(ks)).I(int64(iv)).I(int64(tag)).S(variant).B(keyBytes).B(pt).B(ad).Sum(), func() any { return what })
 	})
+}
+
+// ctrhmac24: aesctrhmac.NewParameters documents AES key sizes 16, 24 and 32; the primitive takes 16
+// and 32. Refused => fine; built => the whole C01 oracle against the encrypt-then-MAC reference
+// (AES-192 in CTR mode).
+func ctrhmac24(rt *rapid.T) {
+	c := &aeadcase.Case{Type: "AESCTRHMAC", Route: gen.Pick(rt, "route", []string{"handle", "fullprim", "keymanager"})}
+	c.Variant = gen.Pick(rt, "variant", aeadcase.Variants)
+	if c.Variant != tk.NoPrefix {
+		c.ID = gen.KeyID(rt, "id")
+	}
+	c.Key = gen.BytesN(rt, "key", 24)
+	c.Hash = gen.Pick(rt, "hash", []string{"SHA1", "SHA224", "SHA256", "SHA384", "SHA512"})
+	c.MacKey = gen.BytesN(rt, "mackey", rapid.IntRange(16, 80).Draw(rt, "mackeylen"))
+	c.IVSize = 12 + gen.Uniform(rt, "ivsize", 5)
+	c.NonceLen = c.IVSize
+	c.TagSize = rapid.IntRange(10, map[string]int{"SHA1": 20, "SHA224": 28, "SHA256": 32, "SHA384": 48, "SHA512": 64}[c.Hash]).Draw(rt, "tagsize")
+	route := c.Route
+	if err := c.Rebuild(); err != nil {
+		evid.Case("aesctrhmac-aes192/primitive-refused/"+route, true, evid.NewH().S(c.String()).Sum(), func() any { return c.String() + ": " + err.Error() })
+		return
+	}
+	pt := gen.Bytes(rt, "pt", 100)
+	ad := gen.BytesOrNil(rt, "ad", 40)
+	checkAEAD(rt, c, pt, ad)
+	evid.Add("nonstandard_parameters_built_and_compared", 1)
+	evid.Case("aesctrhmac-aes192/accepted/"+route, true, evid.NewH().S(c.String()).B(pt).B(ad).Sum(), func() any { return c.String() })
 }
 
 // TestGCMSIVHugeInputs checks the 64-bit bit-length block of AES-GCM-SIV for inputs of 2^29 bytes
@@ -896,7 +1094,7 @@ func TestCTRHMACHugeAD(t *testing.T) {
 func TestAEADLegacyPrefixType(t *testing.T) {
 	rapid.Check(t, func(rt *rapid.T) {
 		detrand.Seed(rapid.Uint64().Draw(rt, "entropy"))
-		typ := rapid.SampledFrom([]string{"AESGCM", "AESCTRHMAC", "AESGCMSIV", "CHACHA20POLY1305", "XCHACHA20POLY1305"}).Draw(rt, "aeadtype")
+		typ := gen.Pick(rt, "aeadtype", []string{"AESGCM", "AESCTRHMAC", "AESGCMSIV", "CHACHA20POLY1305", "XCHACHA20POLY1305"})
 		c := aeadcase.DrawType(rt, typ)
 		id := gen.KeyID(rt, "legacyid")
 		k, err := c.NewKey(tk.Crunchy, id)
@@ -908,18 +1106,16 @@ func TestAEADLegacyPrefixType(t *testing.T) {
 			rt.Fatalf("%v: SerializeKey: %v", c, err)
 		}
 		if id == 0 {
-			id = 1 // key id 0 is legal, but keep the keyset's primary id explicit
-			k, _ = c.NewKey(tk.Crunchy, id)
-			ks, _ = protoserialization.SerializeKey(k)
+			evid.Add("legacy_prefix_id0_cases", 1) // key id 0 is legal and runs (it used to be replaced by 1)
 		}
 		kset := &tinkpb.Keyset{PrimaryKeyId: id, Key: []*tinkpb.Keyset_Key{{KeyData: ks.KeyData(), Status: tinkpb.KeyStatusType_ENABLED, KeyId: id, OutputPrefixType: tinkpb.OutputPrefixType_LEGACY}}}
 		h, err := insecurecleartextkeyset.Read(&keyset.MemReaderWriter{Keyset: kset})
 		if err != nil {
-			rt.Fatalf("%v: keyset with LEGACY prefix type refused: %v", c, err)
+			rt.Fatalf("%v: keyset whose only entry is this key with key id %#x and OutputPrefixType LEGACY refused: %v", c, id, err)
 		}
 		a, err := aead.New(h)
 		if err != nil {
-			rt.Fatalf("%v: aead.New on LEGACY-prefixed keyset: %v", c, err)
+			rt.Fatalf("%v: aead.New on the keyset whose only entry is this key with key id %#x and OutputPrefixType LEGACY: %v", c, id, err)
 		}
 		lc := *c
 		lc.Variant, lc.ID, lc.Route, lc.P = tk.Crunchy, id, "proto-LEGACY", a
